@@ -9,7 +9,7 @@ alters the arithmetic or the branch structure changes `acquireIR` and breaks thi
 namespace EgVerif.RateLimiter
 open EgVerif.Gen.FactsC09IR
 
-theorem acquireIR_eq_model (p : Policy) (s : RL) (now count : Int) :
+theorem acquire_regenerated_from_source (p : Policy) (s : RL) (now count : Int) :
     acquireIR p s now count false = acquire p s now count := by
   unfold acquireIR acquire
   simp only [Bool.false_eq_true, if_false, decide_eq_true_eq]
